@@ -42,9 +42,26 @@ class Mismatch(Exception):
 
 
 # ---------------------------------------------------------------- build / project
+# Python values used as constants by the application (any value that is not a Variable or Functor is a
+# constant for the engine, compared with ==).  When FOREIGN is set, the atoms in ARGUMENT positions that
+# the consumer builds become such values (only in scenarios where no compiled script mentions them).
+FOREIGN = False
+_FOREIGN_BACK = {}
+_Point = __import__("collections").namedtuple("Point", "x y")
+_FOREIGN_MAKERS = [lambda n: (n, 1), lambda n: _Point(n, 2), lambda n: (n, 0, 7), lambda n: frozenset([n, 1]), lambda n: n.encode("utf-8"), lambda n: (n,)]
+
+
+def foreign_constant(name):
+    obj = _FOREIGN_MAKERS[(len(name) + ord(name[0])) % len(_FOREIGN_MAKERS)](name)
+    _FOREIGN_BACK[obj] = name
+    return obj
+
+
 def build(yp, t, env):
     k = t["t"]
     if k == "a":
+        if FOREIGN and t["n"] not in ("[]", "true", "fail"):
+            return foreign_constant(t["n"])
         return yp.atom(t["n"])
     if k == "i":
         return int(t["n"])
@@ -95,6 +112,8 @@ def project(x, names):
         return {"t": "py", "v": repr(x)}
     if isinstance(x, int):
         return {"t": "i", "n": str(x)}
+    if FOREIGN and x in _FOREIGN_BACK:
+        return {"t": "a", "n": _FOREIGN_BACK[x]}
     return {"t": "py", "v": repr(x)}
 
 
@@ -118,6 +137,8 @@ def project_raw(x, names):
         return {"t": "py", "v": repr(x)}
     if isinstance(x, int):
         return {"t": "i", "n": str(x)}
+    if FOREIGN and x in _FOREIGN_BACK:
+        return {"t": "a", "n": _FOREIGN_BACK[x]}
     return {"t": "py", "v": repr(x)}
 
 
@@ -245,6 +266,25 @@ class Runner:
         self.saved = {}    # run id -> [(values returned by get_value at an answer, their image at that time, to_python image)]
         self.qargs = {}    # run id -> the goal's argument terms as built (raw functors with variables inside)
         self.built = {}    # run id -> lists built with makelist from the query variables at earlier answers
+        global FOREIGN
+        FOREIGN = bool(self.opts.get("foreign"))
+        self.log_handler = None
+        if self.opts.get("log_debug"):
+            # the application has switched debug logging on for the package (records go to a collecting handler)
+            import logging
+
+            class _Collect(logging.Handler):
+                def emit(self, record):
+                    try:
+                        record.getMessage()
+                    except Exception:
+                        pass
+            lg = logging.getLogger("yldprolog")
+            self.log_handler = _Collect()
+            self.log_prev = (lg.level, lg.propagate)
+            lg.addHandler(self.log_handler)
+            lg.setLevel(logging.DEBUG)
+            lg.propagate = False
         self.yps = [YP() for _ in range(scn.get("engines", 1))]
         self.q = {}        # run id -> [generator] (a list so that the reference can be dropped)
         self.qv = {}       # run id -> query variables
@@ -491,3 +531,12 @@ class Runner:
                 except Exception:
                     pass
         self.q.clear()
+        global FOREIGN
+        FOREIGN = False
+        if self.log_handler is not None:
+            import logging
+            lg = logging.getLogger("yldprolog")
+            lg.removeHandler(self.log_handler)
+            lg.setLevel(self.log_prev[0])
+            lg.propagate = self.log_prev[1]
+            self.log_handler = None
